@@ -1721,7 +1721,7 @@ class Quaternion(np.ndarray):
 
         """
         phi = np.arctan2(2.0*(self.w*self.x + self.y*self.z), 1.0 - 2.0*(self.x**2 + self.y**2))
-        theta = np.arcsin(2.0*(self.w*self.y - self.z*self.x))
+        theta = np.arcsin(np.clip(2.0*(self.w*self.y - self.z*self.x), -1.0, 1.0))
         psi = np.arctan2(2.0*(self.w*self.z + self.x*self.y), 1.0 - 2.0*(self.y**2 + self.z**2))
         return np.array([phi, theta, psi])
 
@@ -2828,7 +2828,7 @@ class QuaternionArray(np.ndarray):
 
         """
         phi = np.arctan2(2.0*(self.w*self.x + self.y*self.z), 1.0 - 2.0*(self.x**2 + self.y**2))
-        theta = np.arcsin(2.0*(self.w*self.y - self.z*self.x))
+        theta = np.arcsin(np.clip(2.0*(self.w*self.y - self.z*self.x), -1.0, 1.0))
         psi = np.arctan2(2.0*(self.w*self.z + self.x*self.y), 1.0 - 2.0*(self.y**2 + self.z**2))
         return np.c_[phi, theta, psi]
 
